@@ -159,7 +159,13 @@ func discharge(o Obligation, dir string, thorough bool, timeout time.Duration) R
 		}
 		return res
 	}
-	a := runOne(solverZ3New, dir, base, o.Query, timeout)
+	// quick tier: a short first attempt (almost every obligation is decided in well under a second), then the two other
+	// back ends, then the first back end again with the full time limit if it had merely run out of time
+	short := timeout
+	if short > 2*time.Second {
+		short = 2 * time.Second
+	}
+	a := runOne(solverZ3New, dir, base, o.Query, short)
 	res.Attempts = append(res.Attempts, a)
 	res.Secs = a.Secs
 	res.Verdict, res.Solver = a.Verdict, a.Solver
@@ -176,6 +182,14 @@ func discharge(o Obligation, dir string, thorough bool, timeout time.Duration) R
 		}
 		if b.Verdict == "sat" {
 			res.Verdict = "sat"
+		}
+	}
+	if a.Verdict == "timeout" && short < timeout && res.Verdict != "sat" {
+		b := runOne(solverZ3New, dir, base, o.Query, timeout)
+		res.Attempts = append(res.Attempts, b)
+		res.Secs += b.Secs
+		if b.Verdict == "unsat" || b.Verdict == "sat" {
+			res.Verdict, res.Solver = b.Verdict, b.Solver
 		}
 	}
 	return res
